@@ -32,6 +32,8 @@ type C01Op struct {
 	Seed       int64  `json:"seed,omitempty"`
 	PayloadLen int    `json:"payload_len,omitempty"`
 	List       []int  `json:"list,omitempty"`
+	// SaltPrefix: index into kit.SaltPrefixes (0 = an ordinary random salt)
+	SaltPrefix int `json:"salt_prefix,omitempty"`
 }
 
 type C01Case struct {
@@ -78,6 +80,9 @@ func genC01(maxKeys, maxOps int) func(t *rapid.T) C01Case {
 				op.Seed = rapid.Int64Range(1, 1<<40).Draw(t, "seed")
 				op.PayloadLen = rapid.SampledFrom([]int{0, 0, 1, 7, 100, 1500, 20000}).Draw(t, "plen")
 				op.Mut = rapid.SampledFrom([]string{"none", "none", "none", "trunc", "flip", "random", "extend"}).Draw(t, "mut")
+				if rapid.IntRange(0, 3).Draw(t, "prefixed") == 0 {
+					op.SaltPrefix = rapid.IntRange(1, len(kit.SaltPrefixes)-1).Draw(t, "saltPrefix")
+				}
 				switch op.Mut {
 				case "trunc":
 					op.MutArg = rapid.IntRange(0, 120).Draw(t, "truncAt")
@@ -126,7 +131,7 @@ func c01BuildStream(op C01Op, key *kit.Key, seedBump int64) (wire, payload []byt
 	if op.Mut == "random" {
 		return kit.DetBytes(seed, op.MutArg), nil
 	}
-	salt := kit.DetBytes(seed, key.SaltSize())
+	salt := kit.PrefixedSalt(seed, key.SaltSize(), op.SaltPrefix)
 	payload = kit.DetBytes(seed+1, op.PayloadLen)
 	plain := append(kit.SocksAddrFor(c01Target, false), payload...)
 	// first chunk plan derived from the seed: address alone, coalesced, or split
@@ -315,7 +320,7 @@ func c01Connect(c C01Case, op C01Op, step int, key *kit.Key, attempt int64, mode
 	if saltSizes >= 2 && ((refAuth && !headMatch) || (derivedInvalid && op.Mut != "random")) {
 		info.NonTrivial = true
 	}
-	info.Class("mut:"+op.Mut, fmt.Sprintf("refAuth:%v", refAuth))
+	info.Class("mut:"+op.Mut, fmt.Sprintf("refAuth:%v", refAuth), fmt.Sprintf("salt-looks-like-another-protocol:%v", op.SaltPrefix > 0))
 	if refAuth && !headMatch {
 		info.Class("match-not-at-head")
 	}
